@@ -292,7 +292,8 @@ def eval_monad_range(a, backend):
             s = set()
             arr = []
             for x in a:
-                sx = str(x)
+                # the text alone does not identify a member: 1 and "1", :a and "a" print alike
+                sx = (backend.is_number(x), isinstance(x, KGSym), is_list(x), str(x))
                 if sx not in s:
                     s.add(sx)
                     arr.append(x)
